@@ -214,6 +214,10 @@ type PreparedMeta struct {
 	GlobalSpec bool
 	Columns    []ColSpec
 	PKIndices  []uint16 // v4+
+	// NoMetadata sets flag 0x0004 and omits the column specifications. The specification
+	// defines no such flag for the bind metadata of a PREPARED result: only a misbehaving
+	// node sends this (encoder only; used by the byzantine scenario).
+	NoMetadata bool
 }
 
 // ErrorBody carries the code-specific fields of ERROR.
